@@ -91,6 +91,8 @@ def const_model(engine, s):
         return Agg('quote::__private::HasIterator', [])
     if s.startswith('std::marker::PhantomData'):
         return Agg(None, [])
+    if s.startswith(('syn::token::', 'kw::', 'syn::Ident', 'proc_macro2::Ident', 'syn::LitInt', 'syn::Lit')):
+        return FnItem(s)      # token constructor used as a Peek marker
     return NotImplemented
 
 
@@ -667,7 +669,7 @@ def m_then(e, args, info):
 
 @trait('Not', 'not')
 def m_not(e, args, info):
-    a = args[0]
+    a = e.deref(args[0])
     return (not a) if isinstance(a, bool) else z3.Not(a)
 
 
@@ -1055,6 +1057,8 @@ def m_eq(e, args, info):
         return str_eq(a.name, b.name)
     if isinstance(a, Opq) and isinstance(b, Opq):
         return a.id == b.id
+    if hasattr(a, 'name') and hasattr(b, 'name') and type(a) is type(b) and type(a).__name__ == 'LifetimeV':
+        return a.name == b.name
     if isinstance(a, (Agg, EnumV)) and (a.ty, 'PartialEq', 'eq') in e.trait_impls:
         # `&T == &T` (std's blanket impl for references) delegates to the crate's impl for T
         return e.call_fn(e.trait_impls[(a.ty, 'PartialEq', 'eq')][0][1], [Ref(Cell(a)), Ref(Cell(b))])
@@ -1579,11 +1583,12 @@ def m_spanned(e, args, info):
 # =========================================================================== syn::Error
 
 class ErrV:
-    def __init__(self, msgs):
+    def __init__(self, msgs, parse=False):
         self.msgs = msgs        # [(span, message)]
+        self.parse = parse      # raised by the (modelled) syn token primitives rather than by the crate
 
     def clone(self):
-        return ErrV(list(self.msgs))
+        return ErrV(list(self.msgs), self.parse)
 
     def __repr__(self):
         return 'Err%r' % (self.msgs,)
